@@ -210,7 +210,7 @@ def correspondence(ctx, model_ok=True):
                 failures.append({"what": "iteration scenario '%s' prints %s (%s), expected %s" % (name, list(c[2]) if len(c) > 2 else c, c[0], e), "program": src,
                                  "expected": e, "signature": "scenario " + name, "failing_input": True})
     gen = progs.generated(rng, ["iteration", "control"], 800 if ctx.thorough else 150)
-    sd = specdiff.diff(ctx, [(n, s, m) for n, s, m, _ in gen], "C18", broken) if model_ok else {"failures": [], "compared": 0}
+    sd = specdiff.diff(ctx, [(n, s, m) for n, s, m, _ in gen] + [("scenario:" + sc[0], sc[1], {}) for sc in SCENARIOS], "C18", broken) if model_ok else {"failures": [], "compared": 0}
     failures += sd["failures"]
     cov = {
         "evaluations": compared + 2 * len(scen) + sd["compared"],
